@@ -13,6 +13,7 @@ import ApiFu.Common.Sexp
 import ApiFu.Common.Loop
 import ApiFu.C06.Driver
 import ApiFu.C12.Model
+import ApiFu.C12.DriverWalks
 
 open ApiFu ApiFu.C06 ApiFu.C12
 
@@ -39,4 +40,9 @@ def handle (line : String) : String :=
 
 end ApiFu.C12.Driver
 
-def main : IO Unit := ApiFu.lineLoopPure ApiFu.C12.Driver.handle
+/-- Requests `(walks …)` and `(fields …)` go to the walk models (DriverWalks.lean), everything else to `Driver.handle`. -/
+def dispatch (line : String) : String :=
+  if line.startsWith "(walks " || line.startsWith "(fields " then (ApiFu.C12.DriverWalks.handle? line).getD "bad-op"
+  else ApiFu.C12.Driver.handle line
+
+def main : IO Unit := ApiFu.lineLoopPure dispatch
